@@ -47,9 +47,11 @@ func cdxSeams(rep *Report, cf caseAdder, d *sbom.Document, kind, version string)
 		obs = "(Some " + nativefmt.CBom(bom) + ")"
 	}
 	c := fmt.Sprintf("(CSer %s %s)", coqfmt.Document(d), obs)
-	cf.Add(c)
-	rep.NoteCase(c, d.NodeList != nil && len(d.NodeList.Nodes) >= 3, map[string]any{"seam": "Serialize", "kind": kind, "document": docJSON(d)})
-	rep.Count("seam=A:" + kind)
+	if !tooLarge(rep, c) {
+		cf.Add(c)
+		rep.NoteCase(c, d.NodeList != nil && len(d.NodeList.Nodes) >= 3, map[string]any{"seam": "Serialize", "kind": kind, "document": docJSON(d)})
+		rep.Count("seam=A:" + kind)
+	}
 	if bom == nil {
 		return
 	}
@@ -66,9 +68,11 @@ func cdxSeams(rep *Report, cf caseAdder, d *sbom.Document, kind, version string)
 	}
 	if kind == "tree" {
 		c2 := fmt.Sprintf("(CChan %s %s %s)", written, nativefmt.CBom(decoded), coqfmt.Bool(version == "1.5"))
-		cf.Add(c2)
-		rep.NoteCase(c2, true, map[string]any{"seam": "JSON layer", "kind": kind, "spec_version": version, "document": docJSON(d)})
-		rep.Count("seam=C:" + kind)
+		if !tooLarge(rep, c2) {
+			cf.Add(c2)
+			rep.NoteCase(c2, true, map[string]any{"seam": "JSON layer", "kind": kind, "spec_version": version, "document": docJSON(d)})
+			rep.Count("seam=C:" + kind)
+		}
 	}
 	doc2, uerr := unserializers.NewCDX(version, "json").Unserialize(bytes.NewReader(buf.Bytes()), &native.UnserializeOptions{}, nil)
 	if uerr != nil || doc2 == nil {
@@ -84,9 +88,11 @@ func cdxSeams(rep *Report, cf caseAdder, d *sbom.Document, kind, version string)
 		dts = append(dts, fmt.Sprintf("(%s, %s, %s)", coqfmt.Str(dt.GetName()), coqfmt.Str(dt.GetDescription()), t))
 	}
 	c3 := fmt.Sprintf("(CUnser %s %s [%s])", nativefmt.CBom(decoded), coqfmt.NodeList(doc2.NodeList), strings.Join(dts, "; "))
-	cf.Add(c3)
-	rep.NoteCase(c3, len(doc2.NodeList.Nodes) >= 3, map[string]any{"seam": "Unserialize", "kind": kind, "document": docJSON(d)})
-	rep.Count("seam=B:" + kind)
+	if !tooLarge(rep, c3) {
+		cf.Add(c3)
+		rep.NoteCase(c3, len(doc2.NodeList.Nodes) >= 3, map[string]any{"seam": "Unserialize", "kind": kind, "document": docJSON(d)})
+		rep.Count("seam=B:" + kind)
+	}
 }
 
 func init() { runners["C02"] = runC02 }
